@@ -11,6 +11,9 @@ def units(tier):
     for fl in flavours:
         for k in range(1, 3 if tier == 'quick' else 16):
             us.append(Unit(A.RandomRefused, {'history': 'random:%s:%d' % (fl, base + k)}))
+        # the same on an image that was written and opened again during the history
+        for k in range(1, 2 if tier == 'quick' else 9):
+            us.append(Unit(A.RandomRefused, {'history': 'random:%s:%d:28:r7' % (fl, base + k)}))
     return us
 
 
